@@ -73,8 +73,8 @@ def pta_family(rep, tier):
     rep.coverage['transitions'] += v['transitions']
     for i in v['rejected']:
         r = tr[i]
-        rep.violation({'format': 'cbor', 'route': 'packed+typed-arrays', 'value': 'pta %s' % ','.join(r['items']), 'enc': r['enc']},
-                      {'items': r['items'], 'fam': 'pta'}, {'bytes': bytes(r['bytes']).hex(), 'dec': r['dec'], 'back': r['back'], 'err': r.get('err')})
+        rep.violation({'format': 'cbor', 'route': 'packed+typed-arrays', 'value': 'pta %s%s' % (','.join(r['items']), ' after reset' if r.get('reset') else ''), 'enc': r['enc']},
+                      {'items': r['items'], 'fam': 'pta', 'reset': r.get('reset', False)}, {'bytes': bytes(r['bytes']).hex(), 'dec': r['dec'], 'back': r['back'], 'err': r.get('err')})
     rep.coverage['packed_typed_array_traces_validated'] = v['validated']
     return v['validated'], len(lines)
 
